@@ -20,15 +20,15 @@ EXTENDS MSStore, IOUtils
 
 Traces == JsonDeserialize(IOEnv.TRACE_FILE)
 
-VARIABLES tid, i, st, st0, call, ncmd, last, bad, badat
-vars == <<tid, i, st, st0, call, ncmd, last, bad, badat>>
+VARIABLES tid, i, st, st0, call, ncmd, last, sawno, bad, badat
+vars == <<tid, i, st, st0, call, ncmd, last, sawno, bad, badat>>
 
 Empty == [scripts |-> <<>>, active |-> None]
 NoCall == [op |-> "", a |-> "", b |-> ""]
 NoReply == [status |-> "", fault |-> ""]
 
 Init == /\ tid \in 1..Len(Traces) /\ i = 0 /\ st = Empty /\ st0 = Empty /\ call = NoCall
-        /\ ncmd = 0 /\ last = NoReply /\ bad = "" /\ badat = 0
+        /\ ncmd = 0 /\ last = NoReply /\ sawno = FALSE /\ bad = "" /\ badat = 0
 
 E == Traces[tid].ev[i + 1]
 Flag(clause) == /\ bad' = IF bad = "" /\ clause # "" THEN clause ELSE bad
@@ -57,6 +57,9 @@ RetClause(kind, value) ==
         ELSE IF ~RenameNoLoss(st0, st, call.a, call.b) THEN "RenameNoLoss"
         ELSE IF ~RenameNoOverwrite(st0, st, call.a, call.b) THEN "RenameNoOverwrite"
         ELSE IF kind = "true" /\ ~RenameSuccessPost(st0, st, call.a, call.b) THEN "RenameSuccessPost"
+        \* C09 for the multi-step operation: False needs a NO (or a name clash the client saw in the listing)
+        ELSE IF kind = "false" /\ ~sawno /\ Has(st0, call.a) /\ ~Has(st0, call.b) THEN "ResultMirrorsStatus"
+        ELSE IF kind = "true" /\ sawno THEN "ResultMirrorsStatus"
         ELSE "")
   ELSE IF ncmd = 0 THEN "NoCommandSent"
   ELSE IF op = "listscripts" THEN
@@ -84,28 +87,29 @@ Next ==
             /\ st' = [scripts |-> [n \in {E[2][k][1] : k \in 1..Len(E[2])} |->
                                        E[2][CHOOSE k \in 1..Len(E[2]) : E[2][k][1] = n][2]],
                       active |-> E[3]]
-            /\ UNCHANGED <<st0, call, ncmd, last, bad, badat, pend>>
+            /\ UNCHANGED <<st0, call, ncmd, last, sawno, bad, badat, pend>>
        [] E[1] = "call" ->
             /\ call' = [op |-> E[2], a |-> E[3], b |-> E[4]]
-            /\ st0' = st /\ ncmd' = 0 /\ last' = NoReply
+            /\ st0' = st /\ ncmd' = 0 /\ last' = NoReply /\ sawno' = FALSE
             /\ UNCHANGED <<st, bad, badat, pend>>
        [] E[1] = "cmd" ->
             /\ pend' = [verb |-> E[2], a |-> E[3], b |-> E[4]]
             /\ ncmd' = ncmd + 1
             /\ Flag(IF E[2] = "MALFORMED" THEN "MalformedCommand"
                     ELSE IF E[2] = "PUTSCRIPT" /\ E[4] = "?" THEN "ContentMangled" ELSE "")
-            /\ UNCHANGED <<st, st0, call, last>>
+            /\ UNCHANGED <<st, st0, call, last, sawno>>
        [] E[1] = "reply" ->
             /\ Flag(ReplyClause(pend, E[2], E[3], E[4], E[5]))
             /\ st' = IF E[5] \in {"", "lost"} THEN Srv(st, pend).st ELSE st
             /\ last' = [status |-> E[2], fault |-> E[5]]
+            /\ sawno' = (sawno \/ E[2] = "NO")
             /\ UNCHANGED <<st0, call, ncmd, pend>>
        [] E[1] = "leftover" ->
             /\ Flag(IF E[2] > 0 /\ last.fault = "" /\ last.status # "BYE" THEN "OutOfStep" ELSE "")
-            /\ UNCHANGED <<st, st0, call, ncmd, last, pend>>
+            /\ UNCHANGED <<st, st0, call, ncmd, last, sawno, pend>>
        [] OTHER ->
             /\ Flag(RetClause(E[2], E[3]))
-            /\ UNCHANGED <<st, st0, call, ncmd, last, pend>>
+            /\ UNCHANGED <<st, st0, call, ncmd, last, sawno, pend>>
 
 TInit == Init /\ pend = [verb |-> "", a |-> "", b |-> ""]
 Spec == TInit /\ [][Next]_<<vars, pend>>
